@@ -1,4 +1,4 @@
-import JjModel.Lemmas.DiffMatch
+import JjModel.Lemmas.DiffSolid
 import JjModel.Lemmas.DiffOrder
 /-!
   C03 — Content diffs partition their inputs deterministically.
@@ -95,6 +95,21 @@ theorem build_isSome (inputs : List Bytes) (s : Tokenizer × Compare) (steps : L
     (h : inputs ≠ []) : ∃ d, build inputs (s :: steps) = some d := by
   obtain ⟨d0, hd0⟩ := forTokenizer_isSome inputs s.1 s.2 h
   exact ⟨steps.foldl (fun d s => d.refine s.1 s.2) d0, by simp [build, hd0]⟩
+
+/-! ### (b) alternation, end to end -/
+
+/-- every interior unchanged region of a built diff is non-empty (even on the base side) -/
+theorem diff_interior_nonempty (inputs : List Bytes) (steps : List (Tokenizer × Compare)) (d : ContentDiff)
+    (h : build inputs steps = some d) : interiorNonEmptyb d.regions = true :=
+  interiorSolid_nonEmpty _ (build_interiorSolid inputs steps d h)
+
+/-- **Alternation, end to end.**  For any inputs, tokenizers and comparisons, matching and differing
+hunks never appear twice in a row.  (Tokens are non-empty, so interior regions of `for_tokenizer`
+have a non-empty base range; the empty first/last regions of every refined sub-diff touch their
+neighbours and are merged by `compact_unchanged_regions`: `refineGo_runsGood`, `compactGo_solid`.) -/
+theorem diff_hunks_alternate (inputs : List Bytes) (steps : List (Tokenizer × Compare)) (d : ContentDiff)
+    (h : build inputs steps = some d) : Alternates d.hunkRanges :=
+  hunks_alternate d.regions (diff_interior_nonempty inputs steps d h)
 
 /-! ### (c) matching hunks are equal under the comparison -/
 
